@@ -24,6 +24,9 @@ type c16MultiG struct {
 	// isList, if set, replaces "load of the readers field" as the notion of "the
 	// list" (used to run the loop recognition over a local literal slice).
 	isList func(v c16V) bool
+	// listLen > 0: the list is a literal array of that constant length; a loop
+	// bound equal to it counts as len(list).
+	listLen int64
 }
 
 func (m *c16MultiG) isReadersLoad(v c16V) bool {
@@ -33,36 +36,37 @@ func (m *c16MultiG) isReadersLoad(v c16V) bool {
 	return m.IsFieldLoad(v, m.fReaders)
 }
 
-// c16LiteralElems: v is a slice of a local array literal ([]T{a, b, …}); returns
-// the element values (interface wrapping removed).
-func (g *c16G) c16LiteralElems(v c16V) ([]c16V, bool) {
-	v = g.Val(v)
-	sl, ok := v.V.(*ssa.Slice)
-	if !ok || sl.Low != nil || sl.High != nil {
-		return nil, false
-	}
-	al, ok := sl.X.(*ssa.Alloc)
-	if !ok {
+// c16LiteralArray: al is a local array literal ([k]T{a, b, …}, possibly sliced:
+// []T{a, b, …}) only written by constant-index element stores; returns the
+// element values (interface wrapping removed).
+func (g *c16G) c16LiteralArray(al *ssa.Alloc, ctx *c16Ctx) ([]c16V, bool) {
+	if _, isArr := deref(al.Type()).Underlying().(*types.Array); !isArr {
 		return nil, false
 	}
 	var elems []c16V
 	for _, rr := range refs(al) {
 		switch x := rr.(type) {
-		case *ssa.Slice:
+		case *ssa.Slice, *ssa.UnOp, *ssa.DebugRef:
 		case *ssa.IndexAddr:
 			if _, isK := c16IntConst(x.Index); !isK {
-				return nil, false
+				// a variable index: fine as long as it is only read through
+				for _, r2 := range refs(x) {
+					if st, isStore := r2.(*ssa.Store); isStore && st.Addr == ssa.Value(x) {
+						return nil, false
+					}
+				}
+				continue
 			}
 			for _, r2 := range refs(x) {
 				st, isStore := r2.(*ssa.Store)
 				if !isStore || st.Addr != ssa.Value(x) {
-					return nil, false
+					continue
 				}
 				e := st.Val
 				if mi, isMI := e.(*ssa.MakeInterface); isMI {
 					e = mi.X
 				}
-				elems = append(elems, g.Val(c16V{e, v.Ctx}))
+				elems = append(elems, g.Val(c16V{e, ctx}))
 			}
 		default:
 			return nil, false
@@ -71,27 +75,73 @@ func (g *c16G) c16LiteralElems(v c16V) ([]c16V, bool) {
 	return elems, len(elems) > 0
 }
 
-// c16LiteralLoopsClosing finds counting loops over a local literal slice one of
-// whose elements satisfies want, that run over all its indices, cannot be left
-// early and in every iteration close the current element if it is a Closer.
-// Returns the first instruction occurrence after each such loop: there, every
-// element has been closed-if-Closer.
+// literalOf: v denotes the literal array al: its address, its value or a slice of it.
+func (g *c16G) literalOf(v c16V) (*ssa.Alloc, *c16Ctx) {
+	v = g.Res(v)
+	switch x := v.V.(type) {
+	case *ssa.Alloc:
+		return x, v.Ctx
+	case *ssa.Slice:
+		if x.Low == nil && x.High == nil {
+			if al, ok := x.X.(*ssa.Alloc); ok {
+				return al, v.Ctx
+			}
+		}
+	case *ssa.UnOp:
+		if al, ok := x.X.(*ssa.Alloc); ok && x.Op == token.MUL {
+			return al, v.Ctx
+		}
+	}
+	return nil, nil
+}
+
+// c16LiteralLoopsClosing finds counting loops over a local literal slice/array
+// one of whose elements satisfies want, that run over all its indices, cannot
+// be left early and in every iteration close the current element if it is a
+// Closer. Returns the first instruction occurrence after each such loop: there,
+// every element has been closed-if-Closer.
 func c16LiteralLoopsClosing(g *c16G, want func(c16V) bool) map[c16N]bool {
 	out := map[c16N]bool{}
-	lm := &c16MultiG{c16G: g}
-	lm.isList = func(v c16V) bool {
-		elems, ok := g.c16LiteralElems(v)
+	type lit struct {
+		al  *ssa.Alloc
+		ctx *c16Ctx
+	}
+	var lits []lit
+	seenLit := map[lit]bool{}
+	g.All(func(n c16N, b *c16B) {
+		al, ok := n.In.(*ssa.Alloc)
+		if !ok || seenLit[lit{al, n.Ctx}] {
+			return
+		}
+		elems, ok := g.c16LiteralArray(al, n.Ctx)
 		if !ok {
-			return false
+			return
 		}
 		for _, e := range elems {
 			if want(e) {
-				return true
+				seenLit[lit{al, n.Ctx}] = true
+				lits = append(lits, lit{al, n.Ctx})
+				return
 			}
 		}
-		return false
+	})
+	var loops []*c16Loop
+	var lms []*c16MultiG
+	for _, l := range lits {
+		l := l
+		lm := &c16MultiG{c16G: g}
+		lm.listLen = deref(l.al.Type()).Underlying().(*types.Array).Len()
+		lm.isList = func(v c16V) bool {
+			al, ctx := g.literalOf(v)
+			return al == l.al && ctx == l.ctx
+		}
+		for _, lp := range lm.readerLoops() {
+			loops = append(loops, lp)
+			lms = append(lms, lm)
+		}
 	}
-	for _, lp := range lm.readerLoops() {
+	for li, lp := range loops {
+		lm := lms[li]
 		if lp.Why != "" || len(lp.Exit.Ns) == 0 {
 			continue
 		}
@@ -130,12 +180,12 @@ func c16LiteralLoopsClosing(g *c16G, want func(c16V) bool) map[c16N]bool {
 					if c16AnyState(ff.OutEdge(b, s), func(x uint32) bool { return x&1 == 0 }) {
 						good = false
 					}
-				case !lp.Blocks[s] && !(b == lp.Header && s == lp.Exit):
+				case !lp.Blocks[s] && !lp.normalExit(g, b, s):
 					good = false // early exit
 				}
 			}
 		}
-		if good && len(lp.Exit.Preds) == 1 {
+		if good && lp.exitClean(g) {
 			out[lp.Exit.Ns[0]] = true
 		}
 	}
@@ -145,10 +195,44 @@ func c16LiteralLoopsClosing(g *c16G, want func(c16V) bool) map[c16N]bool {
 // elemIndex: v is element i of the readers slice: *(&S[i]) with S a load of readers.
 func (m *c16MultiG) elemIndex(v c16V) (c16V, bool) {
 	v = m.Val(v)
+	// the list may hold small structs wrapping the reader: look through the field
+	if f, ok := v.V.(*ssa.Field); ok {
+		return m.elemIndex(c16V{f.X, v.Ctx})
+	}
+	if u, ok := v.V.(*ssa.UnOp); ok && u.Op == token.MUL {
+		if fa, ok := u.X.(*ssa.FieldAddr); ok {
+			if ia, ok := fa.X.(*ssa.IndexAddr); ok && m.isReadersLoad(c16V{ia.X, v.Ctx}) {
+				return m.Res(c16V{ia.Index, v.Ctx}), true
+			}
+			// a local copy of the element (`for _, e := range list` / `e := list[i]`
+			// with e a struct): every store into the copy is an element of the list
+			// at one and the same index
+			if al, ok := m.Res(c16V{fa.X, v.Ctx}).V.(*ssa.Alloc); ok && m.cellIsPrivateStruct(al) {
+				var idx c16V
+				n := 0
+				for _, rr := range refs(al) {
+					if st, isStore := rr.(*ssa.Store); isStore && st.Addr == ssa.Value(al) {
+						i2, ok := m.elemIndex(c16V{st.Val, v.Ctx})
+						if !ok || (n > 0 && i2 != idx) {
+							return c16V{}, false
+						}
+						idx = i2
+						n++
+					}
+				}
+				if n > 0 {
+					return idx, true
+				}
+			}
+		}
+	}
 	if u, ok := v.V.(*ssa.UnOp); ok && u.Op == token.MUL {
 		if ia, ok := u.X.(*ssa.IndexAddr); ok && m.isReadersLoad(c16V{ia.X, v.Ctx}) {
 			return m.Res(c16V{ia.Index, v.Ctx}), true
 		}
+	}
+	if ix, ok := v.V.(*ssa.Index); ok && m.isReadersLoad(c16V{ix.X, v.Ctx}) {
+		return m.Res(c16V{ix.Index, v.Ctx}), true // element of an array value
 	}
 	return c16V{}, false
 }
@@ -177,6 +261,17 @@ func (m *c16MultiG) removals() (out []c16Removal, unknown []c16N) {
 			v := m.Res(c16V{st.Val, n.Ctx})
 			if isNilConst(v.V) {
 				out = append(out, c16Removal{n, "all", c16V{}})
+				return
+			}
+			// slices.Delete(list, 0, 1) ≙ list[1:]
+			if call, ok := v.V.(*ssa.Call); ok && callIs(call, "slices", "", "Delete") && len(call.Call.Args) == 3 && m.isReadersLoad(c16V{call.Call.Args[0], v.Ctx}) {
+				lo, ok1 := m.IntConst(c16V{call.Call.Args[1], v.Ctx})
+				hi, ok2 := m.IntConst(c16V{call.Call.Args[2], v.Ctx})
+				if ok1 && ok2 && lo == 0 && hi == 1 {
+					out = append(out, c16Removal{n, "head", c16V{}})
+				} else {
+					unknown = append(unknown, n)
+				}
 				return
 			}
 			if sl, ok := v.V.(*ssa.Slice); ok && m.isReadersLoad(c16V{sl.X, v.Ctx}) && sl.Max == nil {
@@ -208,7 +303,8 @@ func (m *c16MultiG) removals() (out []c16Removal, unknown []c16N) {
 		}
 		if st, ok := n.In.(*ssa.Store); ok {
 			if ia, ok := st.Addr.(*ssa.IndexAddr); ok && m.isReadersLoad(c16V{ia.X, n.Ctx}) {
-				if m.IsNil(c16V{st.Val, n.Ctx}) {
+				if k, isK := m.Val(c16V{st.Val, n.Ctx}).V.(*ssa.Const); isK && k.Value == nil {
+					// nil, or the zero value of a wrapping struct
 					out = append(out, c16Removal{n, "elem", m.Res(c16V{ia.Index, n.Ctx})})
 				} else {
 					unknown = append(unknown, n)
@@ -216,6 +312,11 @@ func (m *c16MultiG) removals() (out []c16Removal, unknown []c16N) {
 			}
 		}
 		if call, ok := n.In.(*ssa.Call); ok {
+			if builtinName(call) == "clear" && len(call.Call.Args) == 1 && m.isReadersLoad(c16V{call.Call.Args[0], n.Ctx}) {
+				// clear(list) zeroes every slot: the same as dropping all readers
+				out = append(out, c16Removal{n, "all", c16V{}})
+				return
+			}
 			if bn := builtinName(call); bn == "clear" || bn == "copy" || bn == "append" {
 				for _, a := range call.Call.Args {
 					if m.isReadersLoad(c16V{a, n.Ctx}) && (bn != "append" || a == call.Call.Args[0]) && bn != "append" {
@@ -226,6 +327,38 @@ func (m *c16MultiG) removals() (out []c16Removal, unknown []c16N) {
 		}
 	})
 	return
+}
+
+// cellIsPrivateStruct: a local struct variable only stored to as a whole and
+// read through its fields.
+func (m *c16MultiG) cellIsPrivateStruct(al *ssa.Alloc) bool {
+	if _, isStruct := deref(al.Type()).Underlying().(*types.Struct); !isStruct {
+		return false
+	}
+	for _, rr := range refs(al) {
+		switch x := rr.(type) {
+		case *ssa.Store:
+			if x.Addr != ssa.Value(al) {
+				return false
+			}
+		case *ssa.FieldAddr:
+			for _, r2 := range refs(x) {
+				if st, isStore := r2.(*ssa.Store); isStore && st.Addr == ssa.Value(x) {
+					return false
+				}
+			}
+		case *ssa.UnOp, *ssa.DebugRef:
+		default:
+			return false
+		}
+	}
+	return true
+}
+
+// c16IsZeroConst: nil or the zero value of an aggregate.
+func c16IsZeroConst(v ssa.Value) bool {
+	k, ok := v.(*ssa.Const)
+	return ok && k.Value == nil
 }
 
 func c16HasClose(t types.Type) bool {
@@ -246,7 +379,24 @@ func c16Multi(c *Ctx) {
 	named := p.Named("streams", "MultiReaderCloser")
 	fReaders := c16FieldByType(named, "list of source readers", "readers", func(t types.Type) bool {
 		sl, ok := t.Underlying().(*types.Slice)
-		return ok && c16IsIface(sl.Elem()) && c16HasMethod(sl.Elem(), "Read")
+		if !ok {
+			return false
+		}
+		isReader := func(t types.Type) bool { return c16IsIface(t) && c16HasMethod(t, "Read") }
+		if isReader(sl.Elem()) {
+			return true
+		}
+		// a slice of small structs (by value or pointer) wrapping exactly one reader
+		if st, isStruct := deref(sl.Elem()).Underlying().(*types.Struct); isStruct {
+			n := 0
+			for i := 0; i < st.NumFields(); i++ {
+				if isReader(st.Field(i).Type()) {
+					n++
+				}
+			}
+			return n == 1
+		}
+		return false
 	})
 	read := c16Method(p, named, "Read")
 	closeFn := c16Method(p, named, "Close")
@@ -627,7 +777,8 @@ func c16HeadFlow(m *c16MultiG, heads map[c16N]bool, use func(n c16N) bool, errs 
 
 // c16Loop is a counting loop `for idx over 0..len(readers)-1`.
 type c16Loop struct {
-	Header  *c16B
+	Header  *c16B // start of every iteration (the block of the induction variable)
+	Test    *c16B // the block whose test decides between another round and Exit
 	If      c16N
 	Idx     c16V // the value compared with len and used to index the element
 	Slice   c16V // the slice value whose length bounds the loop (a load of the readers field)
@@ -640,6 +791,18 @@ type c16Loop struct {
 func (m *c16MultiG) readerLoops() []*c16Loop {
 	g := m.c16G
 	var out []*c16Loop
+	lenOf := func(v c16V) (c16V, bool) {
+		v = g.Res(v)
+		if call, ok := v.V.(*ssa.Call); ok && builtinName(call) == "len" && len(call.Call.Args) == 1 && m.isReadersLoad(c16V{call.Call.Args[0], v.Ctx}) {
+			return g.Val(c16V{call.Call.Args[0], v.Ctx}), true
+		}
+		if k, ok := c16IntConst(v.V); ok && m.listLen > 0 && k == m.listLen {
+			return c16V{}, true // the constant length of the literal array the loop runs over
+		}
+		return c16V{}, false
+	}
+	seenTest := map[*c16B]bool{}
+	// backwards loops are recognised from their test
 	for _, hb := range g.Blocks {
 		if len(hb.Ns) == 0 || len(hb.Succs) != 2 || !g.OnCycle(hb) {
 			continue
@@ -653,101 +816,150 @@ func (m *c16MultiG) readerLoops() []*c16Loop {
 		if !ok {
 			continue
 		}
-		var lenArg c16V
-		isLen := func(v c16V) bool {
-			v = g.Res(v)
-			call, ok := v.V.(*ssa.Call)
-			if ok && builtinName(call) == "len" && len(call.Call.Args) == 1 && m.isReadersLoad(c16V{call.Call.Args[0], v.Ctx}) {
-				lenArg = g.Val(c16V{call.Call.Args[0], v.Ctx})
-				return true
-			}
-			return false
+		if _, isL := lenOf(cmp.X); isL {
+			continue
 		}
-		idx, op := g.Res(cmp.X), cmp.Op
-		if !isLen(cmp.Y) {
-			if !isLen(cmp.X) {
-				if lp := m.reverseLoop(hb, ifn, cmp); lp != nil {
-					out = append(out, lp)
-				}
+		if _, isL := lenOf(cmp.Y); isL {
+			continue
+		}
+		if lp := m.reverseLoop(hb, ifn, cmp); lp != nil {
+			out = append(out, lp)
+			seenTest[hb] = true
+		}
+	}
+	// forward loops: an induction variable i = phi[c0 from outside, i+1 from inside]
+	// and a test of i or i+1 against the length, at the top (while form, also the
+	// rangeindex form whose body uses i+1) or at the bottom (rotated / range-over-int)
+	for _, hb := range g.Blocks {
+		if !g.OnCycle(hb) {
+			continue
+		}
+		for _, pn := range hb.Ns {
+			phi, ok := pn.In.(*ssa.Phi)
+			if !ok {
+				break
+			}
+			if bt, isB := phi.Type().Underlying().(*types.Basic); !isB || bt.Info()&types.IsInteger == 0 {
 				continue
 			}
-			idx, op = g.Res(cmp.Y), c16Flip(cmp.Op)
-		}
-		var phi *ssa.Phi
-		first := int64(0)
-		switch x := idx.V.(type) {
-		case *ssa.Phi:
-			phi = x
-		case *ssa.BinOp:
-			if ph, ok := x.X.(*ssa.Phi); ok && x.Op == token.ADD {
-				if k, ok := c16IntConst(x.Y); ok && k == 1 {
-					phi, first = ph, 1
+			pv := c16V{phi, hb.Ctx}
+			inLoop := func(b *c16B) bool { return b != nil && g.Reach(hb)[b] && g.Reach(b)[hb] }
+			isI := func(v c16V) string {
+				if v == pv {
+					return "i"
 				}
+				return ""
 			}
-		}
-		if phi == nil {
-			continue // e.g. `for len(readers) > 0`: not a counting loop
-		}
-		lp := &c16Loop{Header: hb, If: ifn, Idx: idx, Slice: lenArg, Blocks: map[*c16B]bool{}}
-		switch op {
-		case token.LSS, token.NEQ:
-			lp.Exit = hb.Succs[1]
-		case token.GEQ, token.EQL:
-			lp.Exit = hb.Succs[0]
-		default:
-			lp.Exit = hb.Succs[1]
-			lp.Why = "the loop over readers continues under `index " + op.String() + " len(readers)` instead of index < len: the last reader is skipped or the index overruns"
-		}
-		fromH := map[*c16B]bool{}
-		var walk func(b *c16B)
-		walk = func(b *c16B) {
-			if fromH[b] || b == lp.Exit {
-				return
-			}
-			fromH[b] = true
-			for _, s := range b.Succs {
-				walk(s)
-			}
-		}
-		walk(hb)
-		for b := range fromH {
-			if g.Reach(b)[hb] {
-				lp.Blocks[b] = true
-			}
-		}
-		startOK, stepOK := false, false
-		pb := g.first[c16bk{idx.Ctx, phi.Block()}]
-		for i, ed := range phi.Edges {
-			pred := g.last[c16bk{idx.Ctx, phi.Block().Preds[i]}]
-			if pred == nil || pb == nil {
-				continue
-			}
-			if k, ok := c16IntConst(ed); ok && !lp.Blocks[pred] {
-				if k+first == 0 {
-					startOK = true
-				} else {
-					lp.Why = "the loop over readers does not start at index 0: leading readers are skipped (never closed / copied)"
-				}
-				continue
-			}
-			if bo, ok := ed.(*ssa.BinOp); ok && bo.Op == token.ADD {
-				if k, ok := c16IntConst(bo.Y); ok && k == 1 && bo.X == ssa.Value(phi) {
-					stepOK = true
+			start, startOK, stepOK, odd := int64(0), false, false, false
+			for i, ed := range phi.Edges {
+				pred, ectx := g.phiPred(hb.Ctx, phi, i)
+				if pred == nil {
 					continue
 				}
+				ev := c16V{ed, ectx}
+				if !inLoop(pred) {
+					if k, ok := g.IntConst(ev); ok && (!startOK || k == start) {
+						start, startOK = k, true
+					} else {
+						odd = true
+					}
+					continue
+				}
+				if b, off, ok := g.Lin(ev, isI); ok && b == "i" && off == 1 {
+					stepOK = true
+				} else {
+					odd = true
+				}
 			}
-			if ed == idx.V && first == 1 {
-				stepOK = true
+			if !startOK || odd {
 				continue
 			}
-			lp.Why = "the index of the loop over readers is not advanced by exactly 1: readers are skipped"
+			for _, tb := range g.Blocks {
+				if !inLoop(tb) || len(tb.Ns) == 0 || len(tb.Succs) != 2 || seenTest[tb] {
+					continue
+				}
+				ifn := tb.Ns[len(tb.Ns)-1]
+				ifi, ok := ifn.In.(*ssa.If)
+				if !ok {
+					continue
+				}
+				cmp, ok := g.Cmp(c16C{V: g.Res(c16V{ifi.Cond, tb.Ctx}), Branch: true})
+				if !ok {
+					continue
+				}
+				x, op := cmp.X, cmp.Op
+				slice, isL := lenOf(cmp.Y)
+				if !isL {
+					if slice, isL = lenOf(cmp.X); !isL {
+						continue
+					}
+					x, op = cmp.Y, c16Flip(cmp.Op)
+				}
+				bb, delta, ok := g.Lin(x, isI)
+				if !ok || bb != "i" || (delta != 0 && delta != 1) {
+					continue
+				}
+				lp := &c16Loop{Header: hb, Test: tb, If: ifn, Slice: slice, Blocks: map[*c16B]bool{}}
+				cont := tb.Succs[0]
+				switch op {
+				case token.LSS, token.NEQ:
+					lp.Exit = tb.Succs[1]
+				case token.GEQ, token.EQL:
+					lp.Exit, cont = tb.Succs[0], tb.Succs[1]
+				default:
+					lp.Exit = tb.Succs[1]
+					lp.Why = "the loop over readers continues under `index " + op.String() + " len(readers)` instead of index < len: the last reader is skipped or the index overruns"
+				}
+				if inLoop(lp.Exit) || !inLoop(cont) {
+					continue // not the loop-controlling test
+				}
+				for _, b := range g.Blocks {
+					if inLoop(b) {
+						lp.Blocks[b] = true
+					}
+				}
+				first := int64(0) // the first index the body sees
+				switch {
+				case tb == hb: // tested at the top: the body sees the tested value
+					lp.Idx = g.Res(x)
+					first = start + delta
+				case cont == hb && delta == 1: // tested at the bottom for the next round: the body sees i
+					lp.Idx = pv
+					first = start
+				default:
+					continue
+				}
+				if lp.Why == "" && first != 0 {
+					lp.Why = "the loop over readers does not start at index 0: leading readers are skipped (never closed / copied)"
+				}
+				if lp.Why == "" && !stepOK {
+					lp.Why = "the index of the loop over readers is not advanced by exactly 1: readers are skipped"
+				}
+				seenTest[tb] = true
+				out = append(out, lp)
+			}
 		}
-		if lp.Why == "" && (!startOK || !stepOK) {
-			lp.Why = "the loop over readers does not run index 0,1,2,…"
-		}
-		out = append(out, lp)
 	}
 	return out
+}
+
+// normalExit: the edge from -> to is the loop's regular way out (its test
+// failing, or the guard in front of a rotated loop finding the list empty).
+func (lp *c16Loop) normalExit(g *c16G, from, to *c16B) bool {
+	if to != lp.Exit {
+		return false
+	}
+	return from == lp.Test || (!lp.Blocks[from] && g.Dominates(from, lp.Header))
+}
+
+// exitClean: the loop's exit block is entered only through normal exits.
+func (lp *c16Loop) exitClean(g *c16G) bool {
+	for _, q := range lp.Exit.Preds {
+		if !lp.normalExit(g, q, lp.Exit) {
+			return false
+		}
+	}
+	return true
 }
 
 // reverseLoop recognises `for i := len(readers)-1; i >= 0; i--`.
@@ -772,7 +984,7 @@ func (m *c16MultiG) reverseLoop(hb *c16B, ifn c16N, cmp c16Cmp) *c16Loop {
 	default:
 		return nil
 	}
-	lp := &c16Loop{Header: hb, If: ifn, Idx: idx, Exit: exit, Blocks: map[*c16B]bool{}, Reverse: true}
+	lp := &c16Loop{Header: hb, Test: hb, If: ifn, Idx: idx, Exit: exit, Blocks: map[*c16B]bool{}, Reverse: true}
 	fromH := map[*c16B]bool{}
 	var walk func(b *c16B)
 	walk = func(b *c16B) {
@@ -792,11 +1004,11 @@ func (m *c16MultiG) reverseLoop(hb *c16B, ifn c16N, cmp c16Cmp) *c16Loop {
 	}
 	startOK, stepOK := false, false
 	for i, ed := range phi.Edges {
-		pred := g.last[c16bk{idx.Ctx, phi.Block().Preds[i]}]
+		pred, ectx := g.phiPred(idx.Ctx, phi, i)
 		if pred == nil {
 			continue
 		}
-		ev := c16V{ed, idx.Ctx}
+		ev := c16V{ed, ectx}
 		if !lp.Blocks[pred] {
 			b, off, ok := g.Lin(ev, func(v c16V) string {
 				if call, isCall := v.V.(*ssa.Call); isCall && builtinName(call) == "len" && len(call.Call.Args) == 1 && m.isReadersLoad(c16V{call.Call.Args[0], v.Ctx}) {
@@ -990,7 +1202,7 @@ func c16MultiLoop(c *Ctx, m *c16MultiG, fname string, needCopy, isClose bool) bo
 				return s | sCopied
 			}
 			if st, ok := n.In.(*ssa.Store); ok {
-				if ia, ok := st.Addr.(*ssa.IndexAddr); ok && m.isReadersLoad(c16V{ia.X, n.Ctx}) && g.Res(c16V{ia.Index, n.Ctx}) == lp.Idx && g.IsNil(c16V{st.Val, n.Ctx}) {
+				if ia, ok := st.Addr.(*ssa.IndexAddr); ok && m.isReadersLoad(c16V{ia.X, n.Ctx}) && g.Res(c16V{ia.Index, n.Ctx}) == lp.Idx && c16IsZeroConst(g.Val(c16V{st.Val, n.Ctx}).V) {
 					return s | sDropped
 				}
 			}
@@ -1030,7 +1242,7 @@ func c16MultiLoop(c *Ctx, m *c16MultiG, fname string, needCopy, isClose bool) bo
 					why = "the loop is left early after nil-ing the current reader without closing it"
 					pos = g.Pos(last)
 				}
-			case !lp.Blocks[s] && s == lp.Exit && b != lp.Header:
+			case !lp.Blocks[s] && s == lp.Exit && !lp.normalExit(g, b, s):
 				early = append(early, s)
 			}
 		}
@@ -1069,7 +1281,7 @@ func c16MultiLoop(c *Ctx, m *c16MultiG, fname string, needCopy, isClose bool) bo
 				pos = g.Pos(rm.N)
 			}
 		case "all":
-			okDom := len(lp.Exit.Preds) == 1 && lp.Exit.Preds[0] == lp.Header && g.Dominates(lp.Exit, rb)
+			okDom := lp.exitClean(g) && g.Dominates(lp.Exit, rb)
 			for _, eb := range early {
 				if g.Reach(eb)[rb] {
 					okDom = false
